@@ -144,6 +144,7 @@ Inductive op :=
 | OLen                           (* print (len m) *)
 | OPrint                         (* print m *)
 | OEqLit (l : list (str * Z))    (* print (m == {…}) *)
+| OReset (l : list (str * Z))    (* m = (fresh): the SAME literal expression evaluated once more; all aliases rebound *)
 | OLoop (body : list op).        (* for k := range m / print k / body / end *)
 
 Inductive status := Running | PanicMapKey | HostCrash.
@@ -202,6 +203,7 @@ Section Interp.
                 | None => fail HostCrash x
                 end
     | OEqLit l => emit (s_ (if d_eq I (dmap x) (d_lit I l) then "true" else "false")) x
+    | OReset l => with_map (d_lit I l) x
     | OLoop body =>
         let run_body := fix go (l : list op) (c : option str) (y : st D) : st D :=
                           match l with [] => y | o' :: t => go t c (run_op o' c y) end in
@@ -235,6 +237,7 @@ Fixpoint dec_op (x : sx) : option op :=
   | Lst [Sym t; a; Int v] => if str_eqb t (s_ "set") then option_map (fun k => OSet k v) (dec_kref a) else None
   | Lst [Sym t; Lst l] =>
       if str_eqb t (s_ "eq") then option_map OEqLit (dec_pairs l)
+      else if str_eqb t (s_ "reset") then option_map OReset (dec_pairs l)
       else if str_eqb t (s_ "loop") then
         option_map OLoop ((fix go (l : list sx) : option (list op) :=
                              match l with
